@@ -311,12 +311,19 @@ func r113(c *Ctx) {
 	c.ob(rule, "RestoreLastSavedState/decodes-service-list", fn.Pos(), target != nil && strings.Contains(typeString(target.Type()), "[]*"), true, "")
 	// in the locked closure: fresh table, then Set for every decoded service
 	nSet := 0
-	for _, cl := range fn.AnonFuncs {
+	for _, cl := range withAnon(fn) {
 		for _, cs := range callsTo(cl, set) {
 			nSet++
 			s, full := fullRangeElem(cs.common().Args[1])
 			okAll := full && cellOfLoad(s) == target
-			c.ob(rule, "RestoreLastSavedState/installs-every-decoded-service", cs.pos(), okAll && li.holds(cs.instr, lock, modeW) && len(dominatingCondsOtherThanLoop(cs.instr)) == 0, true, "every element of the decoded list must be Set, unconditionally, under the write lock")
+			// (conditions of the form "an earlier step did not fail" do not make the installation conditional)
+			nCond := 0
+			for _, ce := range dominatingCondsOtherThanLoop(cs.instr) {
+				if !guardIsErrNil(ce) {
+					nCond++
+				}
+			}
+			c.ob(rule, "RestoreLastSavedState/installs-every-decoded-service", cs.pos(), okAll && li.holds(cs.instr, lock, modeW) && nCond == 0, true, "every element of the decoded list must be Set, unconditionally, under the write lock")
 			// into a fresh map assigned before
 			fresh := false
 			for _, w := range c.writesOfField(c.field("Router", "services")) {
